@@ -44,10 +44,36 @@ ENGINES = {
     'delegates': dict(kind='default', allow_delegates=True),
     'custom1': dict(kind='default', inserts=CUSTOM1),
     'custom2': dict(kind='default', inserts=CUSTOM2),
+    'percall': dict(kind='default'),
 }
 
 
+class _PerCall:
+    """the two-argument parse form: engine(text, options), with host options
+    of the kinds the documentation allows (any values, not only yaql's own
+    scalars)"""
+    OPTIONS = {'yaql.limitIterators': 50, 'host.environment': {
+        'region': 'eu', 'tags': ['a', 'b']}, 'host.list': [1, [2]],
+        'host.set': {1, 2}}
+
+    def __init__(self, eng):
+        self._eng = eng
+
+    def __call__(self, text):
+        return self._eng(text, dict(self.OPTIONS))
+
+    def __getattr__(self, name):
+        return getattr(self._eng, name)
+
+
+_PERCALL = {}
+
+
 def get_engine(name):
+    if name == 'percall':
+        if 'e' not in _PERCALL:
+            _PERCALL['e'] = _PerCall(common.engine(kind='default'))
+        return _PERCALL['e']
     return common.engine(**ENGINES[name])
 
 
